@@ -95,10 +95,18 @@ def key_str(k):
     return 'o' + repr(k)
 
 
+def canon_item(x):
+    # exception text "ClassName|message": keep the class name only
+    if type(x) is bytes and b'|' in x:
+        name = x[:x.index(b'|')]
+        if name.isalpha() and (name.decode() in KNOWN_EXN or name.endswith(b'Error')):
+            return name + b'|'
+    return x
+
+
 def canon_E(v):
-    # exception text: keep the class name only
     if type(v) in (list, tuple):
-        return [x[:x.index(b'|') + 1] if type(x) is bytes and b'|' in x else x for x in v]
+        return [canon_item(x) for x in v]
     return v
 
 
@@ -113,6 +121,7 @@ def cache_str(cache):
 
 
 def stack_str(items):
+    items = [canon_item(b) for b in items]
     return ','.join((b.hex() if len(b) else 'e') for b in items) if items else '-'
 
 
